@@ -234,8 +234,7 @@ def main(tier):
         per = max(1, nb // 4)
         for k in range(0, nb, per):
             tasks.append((v, c, signref if k == 0 else {}, lens, bases[k:k + per], chunk_lens))
-    with ctx.Pool(min(16, len(tasks))) as pool:
-        outs = pool.map(_backend_worker, tasks)
+    outs = pylib.pool_map(_backend_worker, tasks, min(16, len(tasks)))
     res = common.Result(); total = 0; info = {}
     for tag, n, fails, inf in outs:
         total += n
